@@ -83,10 +83,21 @@ Definition run_tag (kind : bytes) (args : list bytes) : bytes :=
              kv "hashcoh" [49]]
     | _ => b "bad-case"
     end
+  else if beq kind (b "sub_cmp") then
+    match args with
+    | [h1; h2] =>
+      let s1 := unhex h1 in let s2 := unhex h2 in
+      if negb (utf8_valid s1 && utf8_valid s2) then b "skip non-utf8" else
+      let x := sub_from_name s1 in let y := sub_from_name s2 in
+      let e := sub_eq x y in
+      words [kv "eq" (show_bool e); kv "hashcoh" [49]; kv "hset" (show_bool e);
+             kv "names" (hex (sub_as_str x) ++ [44] ++ hex (sub_as_str y))]
+    | _ => b "bad-case"
+    end
   else b "unknown-kind".
 
 Definition is_tag_kind (k : bytes) : bool :=
-  existsb (beq k) [b "tag_list"; b "sub_list"; b "tag_parse"; b "tag_cmp"; b "sub"; b "tag_rt";
+  existsb (beq k) [b "tag_list"; b "sub_list"; b "tag_parse"; b "tag_cmp"; b "sub"; b "sub_cmp"; b "tag_rt";
                      b "spec_tag_names"; b "spec_sub_names"].
 
 Definition dispatch (line : bytes) : bytes :=
